@@ -27,14 +27,14 @@ impl Property for C12 {
         "C12"
     }
     fn rule(&self) -> &'static str {
-        "anchor: external check value 0x0376E6E7 of '123456789'; bytepos: for a seeded random message (label length 0/3/6) every byte position of total length, protocol type, label and the first 64 PDU bytes takes all 256 values (each value selects a distinct table index at that position) and DefaultCrc is compared with a bit-serial reference; lengths: PDU lengths from the size lattice up to 65535; random: seeded messages; sender/receiver: fragment trains built by the real encapsulator (half of them after a label-memory pre-history: re-use limit just reached, or re-use disabled after traffic with the same label; one in three through encap_ext with an extension chain, incl. re-use substituted first fragments) with a recording CrcCalculator on both sides, trailer compared with the reference, receiver accepts iff trailer == reference (also when its label memory is reset between two fragments); rx-handmade: hand-made trains sealed conformantly or with the wrong label rule (explicit label sealed as if re-used, re-use fragment sealed with the full label). Non-trivial = the reference and the crate both produced a value and were compared; fingerprint = hash of the full CRC input (or of the train)."
+        "anchor: external check value 0x0376E6E7 of '123456789'; bytepos: for a seeded random message (label length 0/3/6) every byte position of total length, protocol type, label and the first 64 PDU bytes takes all 256 values (each value selects a distinct table index at that position) and DefaultCrc is compared with a bit-serial reference; lengths: PDU lengths from the size lattice up to 65535; random: seeded messages, one in four crafted so that the running CRC register is exactly zero at a field boundary or inside the PDU (all-ones total length and type; a label or PDU stretch equal to the register reached before it), one in three summed a second time after the same buffer was modified in place; sender/receiver: fragment trains built by the real encapsulator (half of them after a label-memory pre-history: re-use limit just reached, or re-use disabled after traffic with the same label; one in three through encap_ext with an extension chain, incl. re-use substituted first fragments) with a recording CrcCalculator on both sides, trailer compared with the reference, receiver accepts iff trailer == reference (also when its label memory is reset between two fragments); rx-handmade: hand-made trains sealed conformantly or with the wrong label rule (explicit label sealed as if re-used, re-use fragment sealed with the full label). Non-trivial = the reference and the crate both produced a value and were compared; fingerprint = hash of the full CRC input (or of the train)."
     }
     fn gens(&self, cx: &Cx) -> Vec<Gen> {
         vec![
             Gen { name: "anchor", count: 1, exhaustive: false },
             Gen { name: "bytepos", count: cx.n(48, 1200), exhaustive: false },
             Gen { name: "lengths", count: size_lattice().len() as u64, exhaustive: false },
-            Gen { name: "random", count: cx.n(40_000, 1_000_000), exhaustive: false },
+            Gen { name: "random", count: cx.n(60_000, 1_000_000), exhaustive: false },
             Gen { name: "sender", count: cx.n(3_000, 60_000), exhaustive: false },
             Gen { name: "receiver", count: cx.n(3_000, 60_000), exhaustive: false },
             Gen { name: "rx-handmade", count: cx.n(6_000, 200_000), exhaustive: false },
@@ -130,10 +130,51 @@ impl Property for C12 {
                 rep.eval();
                 let ll = [0usize, 3, 6][rng.below(3)];
                 let plen = if rng.chance(1, 50) { rng.below(65536) } else { rng.below(300) };
-                let pdu = rng.bytes(plen);
-                let label = rng.bytes(ll);
-                let total = rng.next() as u16;
-                let pt = rng.next() as u16;
+                let mut pdu = rng.bytes(plen);
+                let mut label = rng.bytes(ll);
+                let mut total = rng.next() as u16;
+                let mut pt = rng.next() as u16;
+                // one input in four is crafted so that the running CRC register is exactly ZERO at a field boundary or
+                // inside the PDU (appending the register's own four bytes zeroes it): all-ones total length and type,
+                // a label / a PDU stretch equal to the register reached before it
+                match rng.below(16) {
+                    0 => {
+                        total = 0xFFFF;
+                        pt = 0xFFFF;
+                    }
+                    1 if ll == 6 => {
+                        let mut pre = total.to_be_bytes().to_vec();
+                        pre.extend_from_slice(&pt.to_be_bytes());
+                        pre.extend_from_slice(&label[..2]);
+                        let c = fr.bytes(0xFFFF_FFFF, &pre);
+                        label[2..6].copy_from_slice(&c.to_be_bytes());
+                    }
+                    2 if ll == 3 => {
+                        let mut pre = total.to_be_bytes().to_vec();
+                        pre.push((pt >> 8) as u8);
+                        let c = fr.bytes(0xFFFF_FFFF, &pre).to_be_bytes();
+                        pt = (pt & 0xFF00) | c[0] as u16;
+                        label.copy_from_slice(&c[1..4]);
+                    }
+                    3 if plen >= 4 => {
+                        let k = rng.below(plen - 3);
+                        let mut pre = total.to_be_bytes().to_vec();
+                        pre.extend_from_slice(&pt.to_be_bytes());
+                        pre.extend_from_slice(&label);
+                        pre.extend_from_slice(&pdu[..k]);
+                        let c = fr.bytes(0xFFFF_FFFF, &pre);
+                        pdu[k..k + 4].copy_from_slice(&c.to_be_bytes());
+                        rep.count("random.zero-register-inside-pdu");
+                    }
+                    _ => {}
+                }
+                // the same buffer refilled in place and summed again (a second answer must not be the first one's)
+                if plen > 0 && rng.chance(1, 3) {
+                    let _ = crate_crc(&pdu, pt, total, &label);
+                    let k = rng.below(plen);
+                    pdu[k] ^= 1 << rng.below(8);
+                    rep.count("random.same-buffer-summed-twice");
+                }
                 let want = fr.gse(total, pt, &label, &pdu);
                 match crate_crc(&pdu, pt, total, &label) {
                     Ok(got) if got == want => {
@@ -193,6 +234,23 @@ impl Property for C12 {
                             rep.count("rx-handmade.prime-rejected");
                             return;
                         }
+                    }
+                }
+                // one run in three: a train of the OTHER label mode was abandoned on the same fragment id just before
+                // (a re-use first fragment before an explicit-label train, an explicit-label one before a re-use train)
+                if lt != 2 && rng.chance(1, 3) {
+                    let junk = rng.bytes(plen.min(3));
+                    let abandoned = if lt == 3 {
+                        mk_first(if full.len() == 3 { 1 } else { 0 }, &full, id, (2 + full.len() + plen + 9) as u16, ptype, &junk)
+                    } else {
+                        let pl = mk_complete(lt, &wire_label, 0x0800, b"");
+                        if let Ok(Ok((DecapStatus::CompletedPkt(b, _), _))) = dec_guard(&mut dec, &pl) {
+                            give_back(&mut dec, b);
+                        }
+                        mk_first(3, &[], id, (2 + plen + 9) as u16, ptype, &junk)
+                    };
+                    if matches!(dec_guard(&mut dec, &abandoned), Ok(Ok((DecapStatus::FragmentedPkt(_), _)))) {
+                        rep.count("rx-handmade.abandoned-train-of-other-label-mode");
                     }
                 }
                 rxcrc.take();
